@@ -138,6 +138,13 @@ func (w *Writer) writeByte(v byte) *Writer {
 // 若任一步骤失败，会回滚缓冲区到调用前长度，并保证 Bytes() 不包含部分写入的数据。
 func (w *Writer) WriteMessage(message any, codec Codec) (err error) {
 	startLen := len(w.buf)
+	if message == nil {
+		// nil 消息（例如失败的 PipeResult 不携带消息）以空消息体与保留的消息名表示，ReadMessage 将其还原为 nil
+		if err = w.WriteFrom([]byte(nil), NilMessageName); err != nil {
+			w.buf = w.buf[:startLen]
+		}
+		return err
+	}
 	messageDesc := QueryMessageDesc(message)
 
 	if messageDesc.IsOutside() {
